@@ -134,8 +134,13 @@ def validIPv4 (s : Bytes) : Bool := validIPv4Loop 4 s
 inductive V6Err | host | zone | address
   deriving DecidableEq, Repr
 
-def lastIndexOf (c : UInt8) (b : Bytes) : Option Nat :=
-  (b.reverse.findIdx? (· == c)).map (fun i => b.length - 1 - i)
+/-- bytes.LastIndexByte -/
+def lastIndexOf (c : UInt8) : Bytes → Option Nat
+  | [] => none
+  | a :: t =>
+    match lastIndexOf c t with
+    | some i => some (i + 1)
+    | none => if a == c then some 0 else none
 
 def groupsOK (seenDouble : Bool) (hextets : Nat) : Bool :=
   !((!seenDouble && hextets != 8) || (seenDouble && hextets ≥ 8))
@@ -150,8 +155,10 @@ def validIPv6Addr (addr : Bytes) : Bool :=
       if lastColon == addr.length - 1 then false
       else if !validIPv4 (addr.drop (lastColon + 1)) then false
       else
-        let atSplit := lastColon > 0 && addr.getD (lastColon - 1) 0 == 58
-        let head := if atSplit then addr.take (lastColon - 1) else addr.take lastColon
+        -- addr[:lastColon]; `lastColon > 0 && addr[lastColon-1] == ':'` says it ends with ':'
+        let before := addr.take lastColon
+        let atSplit := before.getLast? == some 58
+        let head := if atSplit then before.dropLast else before
         match parseIPv6Hextets head false with
         | none => false
         | some (hextets, seenDoubleHead) =>
